@@ -38,7 +38,18 @@ def run(tier, seed):
     except Exception as e:
         rep.violation("the long allocate/drop loop did not complete: " + a[:200], {"observed": a[:300]})
     # handle accounting at return to top level: sum of handle counts = number of global definitions (+ nothing held by the embedder)
-    progs = ["(length (map (lambda (x) (list x x)) (range 300)))", "(try (car 5) (catch-all (lambda (e) e)))", "(eval (trap (signal (range 50)) 1))", "(define 'zz (range 40) \"\") zz (undefine 'zz)", "(abort)"]
+    progs = ["(length (map (lambda (x) (list x x)) (range 300)))", "(try (car 5) (catch-all (lambda (e) e)))", "(eval (trap (signal (range 50)) 1))", "(define 'zz (range 40) \"\") zz (undefine 'zz)", "(abort)",
+             # every way out of a trap handler, a closure, a macro, a primitive with a callback, a load
+             "(eval (trap (eval (trap (signal (range 50)) (signal *trapped-signal*))) 1))", "(eval (trap (signal (range 50)) (signal (list 2 *trapped-signal*))))",
+             "(eval (trap (signal (range 50)) (abort)))", "(eval (trap (eval (trap (signal 1) (abort))) 2))",
+             "(try (try (car 5) (catch-all (lambda (e) (throw 'kind 'again 'payload (range 30))))) (catch-all (lambda (e) 'ok)))",
+             "(try (car 5) (catch-all (lambda (e) (car 6))))", "(map (lambda (x) (car x)) (list (range 20) 2))", "(foldl (lambda (a x) (signal (list a x))) 0 '(1 2))",
+             "((lambda (x y) x) (range 30))", "((lambda (x) x) (range 30) 2)", "(macroexpand '(when))", "(eval '(let (a) a))",
+             "(load-all \"(car 5)\" 'stdin)", "(load-all \"(\" 'stdin)", "(eval (trap (load-all \"(signal (range 30))\" 'stdin) (signal *trapped-signal*)))",
+             "(eval (trap ((lambda (f) (f f)) (lambda (f) (add 1 (f f)))) (list 'overflow (. *trapped-signal* 'kind))))",
+             "(eval (trap ((lambda (f) (f f)) (lambda (f) (add 1 (f f)))) (signal *trapped-signal*)))",
+             "(read \"(1 2\" 'stdin 1 1)", "(read-simple \")\")", "(print (signal (range 20)))", "(call-native-function car (list 5) ())",
+             "(define 'zz 1 \"\") (eval (trap (define 'zz 2 \"\") (signal *trapped-signal*))) (undefine 'zz)"]
     answers = run_driver_cases(evalcorr.driver_lines(progs, "p", "cont=1"), timeout=30.0)
     base = dump.split_run_answer(run_driver_cases(evalcorr.driver_lines(["1"], "p"))[0])["stats"]
     for p, a in zip(progs, answers):
@@ -63,7 +74,7 @@ def run(tier, seed):
         rep.broken.append(f"correspondence heap model/implementation: {len(bad)} histories diverge; first: {json.dumps(first)[:600]}")
     rep.coverage["exhaustive"] = False
     return rep.finish("make -C coq Properties/C03.vo && coqc <pinned statements>", TRUSTED_BASE_COMMON + ["axioms: none", "sizing policy: theorems hold for any policy; the tree's f32 policy equals the rational one on the swept range"],
-                      "generated heap histories compared snapshot by snapshot (exactness and free-space monitor after every explicit collection); one long allocate/drop loop; 5 programs for handle accounting; exhaustive f32 sweep; shared-structure probe; non-trivial as for C01")
+                      "generated heap histories compared snapshot by snapshot (exactness and free-space monitor after every explicit collection); one long allocate/drop loop; 27 programs for handle accounting (every exit path of traps, handlers, closures, macros, callbacks, loads); exhaustive f32 sweep; shared-structure probe; non-trivial as for C01")
 
 def replay(path):
     r = json.load(open(path)); print(json.dumps(r, indent=1)[:3000]); return 0
